@@ -121,7 +121,7 @@ def dispatch(cx: int, cy: int, r: int, incl: bool, as_id: bool, which: int) -> b
 BOUNDS = {"quick": {"radius": "<= 2 on unbounded grids, or unbounded radius on grids with extents <= 5", "id-form centres": "every concrete shape with extents <= 2 (real table), radius unbounded"},
           "thorough": {"radius": "<= 3 on unbounded grids (<= 4 for tuple form), or unbounded radius on grids with extents <= 2R+1",
                        "id-form centres": "every concrete shape with extents <= 3"}}
-OUTSIDE = ["larger radii on grids wider than 2R+1", "wrapping (excluded by the property)", "ascending order is not re-decided at R = 4 (pairwise encoding too large); membership is"]
+OUTSIDE = ["larger radii on grids wider than 2R+1", "wrapping (excluded by the property)", "id form (ret_type=int): width and height concrete 0..3/5 per query, depth unbounded (the id is non-linear in width*height; that ids equal table ranks for ALL shapes is C09's id_formula)"]
 STUBS = ["self.cells replaced by stand-ins: symbolic shapes use the arithmetic inverse of the table rank, concrete shapes the REAL position table",
          "PositionComponent centres carry a real-valued in-cell offset 0 <= f < 1 (int() of a non-negative value is exact truncation)"]
 ASSUMPTIONS = ["cell order = position in the world's own table (z-major, y, x), as established by C09"]
@@ -131,10 +131,11 @@ def obligations(tier):
     enc = (Env.DiscreteWorld.get_moore_neighbours, Env.DiscreteWorld.get_neumann_neighbours, Env.DiscreteWorld._get_cell_pos_as_tuple,
            Env.discrete_grid_pos_to_id, Env.DiscreteWorld.get_neighbours)
     R = 2 if tier == "quick" else 3
-    parts = [{"kind": k, "R": R, "ret": rt, "centre": "tuple"} for k in ("moore", "neumann") for rt in ("tuple", "int")]
+    parts = [{"kind": k, "R": R, "ret": "tuple", "centre": "tuple"} for k in ("moore", "neumann")]
+    parts += [{"kind": k, "R": 2, "ret": "int", "centre": "tuple", "WH": 3 if tier == "quick" else 5} for k in ("moore", "neumann")]
     parts += [{"kind": k, "R": 1 if tier == "quick" else 2, "ret": "tuple", "centre": "pos"} for k in ("moore", "neumann")]
     if tier != "quick":
-        parts += [{"kind": "moore", "R": 4, "ret": "tuple", "centre": "tuple", "no_order": True}]
+        parts += [{"kind": "moore", "R": 4, "ret": "tuple", "centre": "tuple"}]
     NI = 2 if tier == "quick" else 3
     shapes = [(3, 3, 3), (2, 0, 3), (1, 4, 0)] if tier == "quick" else [(3, 3, 3), (2, 0, 3), (1, 4, 0), (0, 0, 0), (4, 1, 2), (3, 2, 0)]
     return [
